@@ -3,6 +3,7 @@ CONSTANTS
   CT = TRUE
   TwoKeys = TRUE
   Wl2 = TRUE
+  SameCls = TRUE
   MaxInit = 2
   EarlyForget = FALSE
   SwallowList = FALSE
